@@ -27,6 +27,7 @@ import (
 	"github.com/bufbuild/buf/private/pkg/storage"
 	"github.com/bufbuild/buf/private/pkg/storage/storageutil"
 	"github.com/bufbuild/buf/private/pkg/syserror"
+	"github.com/bufbuild/buf/private/pkg/verifhook"
 )
 
 // errNotDir is the error returned if a path is not a directory.
@@ -201,6 +202,7 @@ func (b *bucket) Put(ctx context.Context, path string, options ...storage.PutOpt
 	if err != nil {
 		return nil, err
 	}
+	verifhook.Point("os.put.created")
 	return newWriteObjectCloser(
 		file,
 		finalPath,
@@ -375,6 +377,7 @@ func newWriteObjectCloser(
 
 func (w *writeObjectCloser) Write(p []byte) (int, error) {
 	n, err := w.file.Write(p)
+	n, err = verifhook.WriteFault("os.write", n, err)
 	if err != nil {
 		w.writeErr.Store(err)
 	}
@@ -390,7 +393,9 @@ func (w *writeObjectCloser) SetLocalPath(string) error {
 }
 
 func (w *writeObjectCloser) Close() error {
+	verifhook.Point("os.close.before")
 	err := toStorageError(w.file.Close())
+	err = verifhook.ErrFault("os.close", err)
 	// This is an atomic write operation - we need to rename to the final path
 	if w.path != "" {
 		atomicWriteErr := errors.Join(w.writeErr.Load(), err)
@@ -398,9 +403,11 @@ func (w *writeObjectCloser) Close() error {
 		if atomicWriteErr != nil {
 			return toStorageError(errors.Join(atomicWriteErr, os.Remove(w.file.Name())))
 		}
+		verifhook.Point("os.close.closed")
 		if err := os.Rename(w.file.Name(), w.path); err != nil {
 			return toStorageError(errors.Join(err, os.Remove(w.file.Name())))
 		}
+		verifhook.Point("os.close.renamed")
 	}
 	return err
 }
